@@ -126,11 +126,18 @@ func shortTypeKey(T types.Type) string {
 	return types.TypeString(T, func(p *types.Package) string { return p.Name() })
 }
 
+// structCanon: named struct types declared as `type A B` -> key of B (see load.go).
+var structCanon = map[string]string{}
+
 func namedKey(T types.Type) string {
 	if n, ok := T.(*types.Named); ok {
 		o := n.Origin().Obj()
 		if o.Pkg() != nil {
-			return o.Pkg().Path() + "." + o.Name()
+			k := o.Pkg().Path() + "." + o.Name()
+			if c, ok := structCanon[k]; ok {
+				return c
+			}
+			return k
 		}
 		return o.Name()
 	}
